@@ -444,6 +444,7 @@ func (vc *VC) query(o *Obligation, withModel bool) string {
 const basePreamble = `(declare-datatypes ((Ref 0)) (((null) (obj (objid Int)) (loc (locid Int)) (fld (fparent Ref) (fid Int)) (elem (ebase Ref) (eidx Int)))))
 (declare-datatypes ((Slice 0)) (((mkslice (sbase Ref) (soff Int) (slen Int) (scap Int)))))
 (declare-datatypes ((Iface 0)) (((mkiface (itag Int) (ibox Ref)))))
+(define-fun-rec root ((r Ref)) Ref (ite ((_ is fld) r) (root (fparent r)) (ite ((_ is elem) r) (root (ebase r)) r)))
 (declare-fun at (Slice Int) Ref)
 (assert (forall ((s Slice) (i Int)) (! (= (at s i) (elem (sbase s) (+ (soff s) i))) :pattern ((at s i)))))
 (declare-sort Str 0)
